@@ -178,7 +178,9 @@ impl ast::Stanza {
             used_captures.extend(stmt_result.used_captures);
         }
 
-        let all_captures = self
+        // report unused captures in the order in which they appear in the query, so that the
+        // diagnostic does not depend on hash iteration order
+        let unused_captures = self
             .query
             .capture_names()
             .into_iter()
@@ -189,9 +191,7 @@ impl ast::Stanza {
                     != self.full_match_stanza_capture_index as u32
             })
             .map(|cn| Identifier::from(*cn))
-            .collect::<HashSet<_>>();
-        let unused_captures = all_captures
-            .difference(&used_captures)
+            .filter(|i| !used_captures.contains(i))
             .filter(|i| !i.starts_with("_"))
             .map(|i| format!("@{}", i))
             .collect::<Vec<_>>();
